@@ -38,7 +38,33 @@ Section Ctors.
   Variable leb : term -> term -> bool.          (* PTRef order: x.x <= y.x *)
 
   Definition lit_leb (a b : lit) : bool := leb (fst a) (fst b).      (* LessThan_PtAsgn: by term only *)
-  Definition tsort (l : list term) : list term := isort leb l.       (* Logic::termSort *)
+
+  (* Logic::termSort / ArithLogic::termSort call the MiniSat sort (minisat/mtl/Sort.h), which is a selection
+     sort with swaps for at most 15 elements.  It is modelled literally because ArithLogic's comparison
+     (LessThan_deepPTRef) has ties (x and c*x), and then the result depends on the algorithm; argument lists
+     longer than 15 (quicksort in the code) are sorted by the same selection sort here.
+     [sel_min x0 best r]: the inner loop over r with current minimum [best]; returns the minimum, r with the
+     minimum's place taken by x0 (the swap), and whether the minimum was found in r. *)
+  Definition ltb (a b : term) : bool := negb (leb b a).              (* x.x < y.x *)
+  Fixpoint sel_min (x0 best : term) (r : list term) : term * list term * bool :=
+    match r with
+    | [] => (best, [], false)
+    | y :: r' =>
+        if ltb y best
+        then match sel_min x0 y r' with
+             | (m, r'', true) => (m, y :: r'', true)
+             | (_, _, false) => (y, x0 :: r', true)
+             end
+        else match sel_min x0 best r' with
+             | (m, r'', rep) => (m, y :: r'', rep)
+             end
+    end.
+  Fixpoint sel_sort (fuel : nat) (l : list term) : list term :=
+    match fuel, l with
+    | S n, x :: r => match sel_min x x r with (m, r', _) => m :: sel_sort n r' end
+    | _, _ => l
+    end.
+  Definition tsort (l : list term) : list term := sel_sort (length l) l.       (* Logic::termSort *)
 
   (* the scan loop of Logic::mkAnd (Logic.cc:376-390); [p] is the last literal kept; None = "return false" *)
   Fixpoint and_scan (p : option lit) (l : list lit) : option (list lit) :=
